@@ -1,6 +1,7 @@
 (** C05 — Receipt only of proven, unaltered, unexpired counterparty packets. *)
 From IBC Require Import Core.ChainExamples.
-From IBC Require Import Lib.Bytes Core.Height Core.Chain Core.World Core.WorldFacts Core.ChainFacts Core.ChainInv Core.ChainThms.
+From IBC Require Import Lib.Bytes Core.Height Core.Chain Core.World Core.WorldFacts Core.ChainFacts Core.ChainInv Core.ChainThms
+  Core.WorldInv Core.WorldInv2 Core.WorldInv3 Core.WorldThm Core.WorldV2 Core.WorldC05.
 Local Open Scope N_scope.
 
 (** v1: a successful receive has passed every guard: channel OPEN and its counterparty is the packet's source,
@@ -63,6 +64,49 @@ Theorem C05_consulted_client_active me id ph t ver :
     h_lt (cl_latest cl) ph = false /\ assocH ph (cl_cons cl) = Some (t, ver).
 Proof. exact (consulted_spec me id ph t ver). Qed.
 Print Assumptions C05_consulted_client_active.
+
+(** *** end to end, in the two-chain world of Core/World.v with honest Tendermint-like clients, for every history of
+    blocks (any messages, proofs, proof heights, client updates, freezes): every MsgRecvPacket accepted over a remote
+    client carries exactly the commitment (= every committed field, C07) that an accepted send once stored on the
+    other chain under the packet's source key, and the packet had not expired at the receiving block.  [g_ever] /
+    [h_ever] hold exactly the commitments written by accepted sends ([C05_ever_sent_is_a_send]). *)
+Theorem C05_end_to_end x l :
+  WI x -> good_steps x l ->
+  let y := irun x l in
+  (forall r, In r (g_rlog (gb y)) -> r_client r <> w_lh (iw y) ->
+     g_ever (ga y) (r_src r) = Some (r_com r) /\ elapsed (Tmo (r_com r)) (r_h r) (r_t r) = false) /\
+  (forall r, In r (g_rlog (ga y)) -> r_client r <> w_lh (iw y) ->
+     g_ever (gb y) (r_src r) = Some (r_com r) /\ elapsed (Tmo (r_com r)) (r_h r) (r_t r) = false).
+Proof. exact (recv_only_sent x l). Qed.
+Print Assumptions C05_end_to_end.
+
+Theorem C05_end_to_end_v2 x l :
+  WI2 x -> good_steps2 x l ->
+  let y := irun2 x l in
+  (forall r, In r (h_rlog (hb y)) -> r2_client r <> w_lh (iw (iw1 y)) ->
+     h_ever (ha y) (r2_src r) = Some (r2_com r) /\ ns_to_s (r2_t r) < Tmo2 (r2_com r)) /\
+  (forall r, In r (h_rlog (ha y)) -> r2_client r <> w_lh (iw (iw1 y)) ->
+     h_ever (hb y) (r2_src r) = Some (r2_com r) /\ ns_to_s (r2_t r) < Tmo2 (r2_com r)).
+Proof. exact (recv2_only_sent x l). Qed.
+Print Assumptions C05_end_to_end_v2.
+
+Theorem C05_ever_sent_is_a_send g g2 pre o h t out :
+  (forall k v, g_ever (gupd g pre o h t out) k = Some v -> g_ever g k = Some v \/
+     exists port chan th tmo data seq ch, out = Ok /\ packet_of o = Some (OSend1 port chan th tmo data) /\
+       nsend pre chan = Some seq /\ chans pre (port, chan) = Some ch /\ k = (port, chan, seq) /\
+       v = commit1 (mkP1 seq port chan (c_cp_port ch) (c_cp_chan ch) data th tmo)) /\
+  (forall k v, h_ever (gupd2 g2 pre o h t out) k = Some v -> h_ever g2 k = Some v \/
+     exists src tmo pay sg seq dst, out = Ok /\ packet_of o = Some (OSend2 src tmo pay sg) /\
+       nsend pre src = Some seq /\ cparty pre src = Some dst /\ k = (src, seq) /\ v = commit2 (mkP2 seq src dst tmo pay)).
+Proof. exact (conj (gupd_ever g pre o h t out) (gupd2_ever g2 pre o h t out)). Qed.
+Print Assumptions C05_ever_sent_is_a_send.
+
+(** non-vacuity of the end-to-end theorem: send on A, A's next block, client update on B, MsgRecvPacket on B with
+    the honest membership proof of version 11 at proof height 1-12: accepted and logged over client 8 *)
+Example C05_end_to_end_nonvacuous :
+  WI (mkIW exw ghost0 ghost0) /\ good_steps (mkIW exw ghost0 ghost0) exr_steps /\
+  map r_dst (g_rlog (gb (irun (mkIW exw ghost0 ghost0) exr_steps))) = [(1, 20, 1)].
+Proof. exact (conj exw_wi (conj exr_good (proj1 exr_received))). Qed.
 
 (** non-vacuity: a concrete state satisfies the invariant and a concrete 13-step history (duplicates, a failing
     application, an ORDERED timeout, multi-payload v2 receives) produces exactly the expected callbacks *)
